@@ -37,8 +37,8 @@ Definition post_matches (st : cstore) (p : xpost) : bool :=
   && match c_client st with Some cs => height_eqb (latest_height cs) (xp_latest p) | None => true end
   && cons_list_eqb (c_cons st) (xp_cons p).
 
-(** Which recent-signer key parser /repo HEAD has (Model/Halt.v [strict]): flipped when the repair lands. *)
-Definition head_strict : bool := false.
+(** Which recent-signer key parser /repo HEAD has (Model/Halt.v [strict]): the repaired one since 0d61436. *)
+Definition head_strict : bool := true.
 
 (** Model vs implementation.  Kinds: 1 validation class, 2 execution class, 3 projected state,
     4 executed although not validated. *)
